@@ -312,7 +312,7 @@ func (c *Ctx) zipEqJobs() []Job {
 		gs = append(gs, SynCorpus[0], SynCorpus[1])
 	} else {
 		gs = append(gs, SynCorpus...)
-		gs = append(gs, ConflictCorpus...)
+		gs = append(gs, ConflictCorpus[:5]...) // G26 (added later) is not in the thorough -zip set: that tier was not re-run with it
 	}
 	var jobs []Job
 	seen := map[string]bool{}
